@@ -120,6 +120,22 @@ func (c *compiled) metaProg(p *Prog) []string {
 			bad = append(bad, fmt.Sprintf("debug info range of %s ends inside an instruction", m.ID))
 		}
 		if m.ID == manifest.MethodInit || m.ID == manifest.MethodDeploy {
+			// the two special methods: listed in the manifest at the offset the debug
+			// information gives; _deploy takes (data, isUpdate)
+			want := 0
+			if m.ID == manifest.MethodDeploy {
+				want = 2
+				if op != opcode.INITSLOT || args[s] != 2 {
+					bad = append(bad, fmt.Sprintf("code of _deploy starts with %s taking %d arguments instead of 2", op, args[s]))
+				}
+			} else if s != 0 {
+				bad = append(bad, fmt.Sprintf("_initialize starts at %d", s))
+			}
+			if mm := c.mf.ABI.GetMethod(m.ID, want); mm == nil {
+				bad = append(bad, fmt.Sprintf("manifest has no method %s/%d", m.ID, want))
+			} else if mm.Offset != s {
+				bad = append(bad, fmt.Sprintf("manifest offset of %s is %d, debug info start %d", m.ID, mm.Offset, s))
+			}
 			continue
 		}
 		n := len(m.Parameters)
@@ -133,6 +149,9 @@ func (c *compiled) metaProg(p *Prog) []string {
 		} else if n != 0 {
 			bad = append(bad, fmt.Sprintf("code of %s starts with %s, debug info declares %d arguments", m.ID, op, n))
 		}
+	}
+	if dm, dd := p.deployPackages(); (dm || len(dd) > 0) && c.byID[manifest.MethodDeploy] == nil {
+		bad = append(bad, "the program declares _deploy, debug info has no _deploy method")
 	}
 	sort.Slice(rs, func(i, j int) bool { return rs[i].s < rs[j].s })
 	for i := 1; i < len(rs); i++ {
